@@ -9,7 +9,12 @@ use verif_harness::workspace;
 
 const PRELUDE: &str = "pub type T { T(a: Int, b: String) }\npub type Box(x) { Box(inner: x) }\nfn id(x) { x }\nfn apply(x: a, f: fn(a) -> b) -> b { f(x) }\nfn map(l: List(a), f: fn(a) -> b) -> List(b) { case l { [] -> [] [h, ..t] -> [f(h), ..map(t, f)] } }\nfn add(a: Int, b: Int) -> Int { a + b }\nfn mk_ok(x: a, e: b) -> Result(a, b) { Ok(x) }\nfn mk_err(x: a, e: b) -> Result(a, b) { Error(e) }\npub type M { M(Int, key: String, value: Float) }\nfn wrap(item) { item }\nfn item() { wrap(1) }\npub type Fx(r) { Fx(run: fn(Int) -> r) }\n";
 /// the library module `pal`, imported by the generated module and used qualified
-const PAL: &str = "pub type Color { Red Green }\npub type Shade { Shade(c: Color, n: Int) }\npub fn mix(a: Color, b: Color) -> Color { case a { Red -> b Green -> a } }\npub fn keep(x: a, y: b) -> a { x }\n";
+const HEADER: &str = "import pal.{Shade}\n";
+const HUE: &str = "import base\npub fn h() { base.z() }\n";
+const TONE: &str = "import base\npub fn t() { base.z() + 1 }\n";
+const BASE: &str = "pub fn z() { 1 }\n";
+/// (its own imports form a diamond: hue and tone both import base)
+const PAL: &str = "import hue\nimport tone\npub fn tint() { #(hue.h(), tone.t()) }\npub type Color { Red Green }\npub type Shade { Shade(c: Color, n: Int) }\npub fn mix(a: Color, b: Color) -> Color { case a { Red -> b Green -> a } }\npub fn keep(x: a, y: b) -> a { x }\n";
 
 fn first_code_block(markup: &str) -> String {
     let mut it = markup.split("```");
@@ -127,7 +132,7 @@ fn main() {
                 }
             }
             let prelude_first = case["prelude_first"].as_bool().unwrap_or(rng.chance(1, 2));
-            let mut text = String::from("import pal\n");
+            let mut text = String::from(HEADER);
             if prelude_first { text.push_str(PRELUDE); }
             let mut probes: Vec<(usize, String, String, String)> = vec![]; // offset, name, role (binder / spread_binder / fun), expected type
             let mut prev = String::new();
@@ -154,7 +159,7 @@ fn main() {
                 }
                 text.push('\n');
             }
-            let prelude_at = if prelude_first { "import pal\n".len() } else { text.len() };
+            let prelude_at = if prelude_first { HEADER.len() } else { text.len() };
             if !prelude_first { text.push_str(PRELUDE); }
             for (name, sig) in prelude_sigs.iter() {
                 let off = PRELUDE.find(&format!("fn {name}(")).expect("prelude function") + 3;
@@ -164,8 +169,9 @@ fn main() {
             let mut nprobe = 0u64;
             let mut nsig = 0u64;
             let mut sig_bad: Option<Value> = None;
+            let mut hl_bad: Option<Value> = None;
             let r = catch(|| {
-                let ws = workspace::single_package(&[("m1", &text), ("pal", PAL)]);
+                let ws = workspace::single_package(&[("m1", &text), ("pal", PAL), ("hue", HUE), ("tone", TONE), ("base", BASE)]);
                 let a = ws.host.snapshot();
                 let diags = a.diagnostics(FileId(0)).unwrap();
                 if !diags.is_empty() {
@@ -189,7 +195,7 @@ fn main() {
                             else if s == "pal" && next == "." { Some("Module") }
                             else if qualified { if first.is_ascii_uppercase() { Some("Constructor") } else { Some("Function") } }
                             else if ["id", "apply", "map", "add", "mk_ok", "mk_err", "wrap"].contains(&s.as_str()) || (s.len() > 1 && s.starts_with('g') && s[1..].chars().all(|c| c.is_ascii_digit())) { Some("Function") }
-                            else if s == "T" || s == "Box" || s == "M" || s == "Fx" { Some("Constructor") }
+                            else if s == "T" || s == "Box" || s == "M" || s == "Fx" || s == "Shade" { Some("Constructor") }
                             else if let Some(ty) = binder_ty.get(s.as_str()) { if ty.starts_with("fn(") { Some("Function") } else { None } }
                             else { None };
                         let got = hl.iter().find(|h| usize::from(h.range.start()) == *off && usize::from(h.range.end()) == off + s.len()).map(|h| format!("{:?}", h.tag));
@@ -197,7 +203,9 @@ fn main() {
                             // the reference is the operand of a prefix operator (`! f(..)`, `- f(..)` after `{` or `=`)
                             let prev2 = if k > 1 { gtoks[k - 2].1.as_str() } else { "" };
                             let prefix_operand = prev == "!" || (prev == "-" && (prev2 == "{" || prev2 == "="));
-                            return Some(json!({"what": "highlight", "token": s, "expected": exp, "got": got, "offset": off, "prefix_operand": prefix_operand}));
+                            // (recorded, not returned: the type probes below are a different property's and must still run)
+                            if hl_bad.is_none() { hl_bad = Some(json!({"what": "highlight", "token": s, "expected": exp, "got": got, "offset": off, "prefix_operand": prefix_operand})); }
+                            break;
                         }
                     }
                 }
@@ -233,7 +241,7 @@ fn main() {
                 local.push(json!({"kind": "mismatch", "prop": "S01", "features": {"what": "signature help", "none": none, "active_only": active_only, "expected_active": b["expected_active"]},
                     "detail": {"case": c, "text": text, "bad": b}}));
             }
-            if let Some(b) = bad {
+            for b in hl_bad.take().into_iter().chain(bad.into_iter()) {
                 let mut c = case.clone();
                 c["order"] = json!(order);
                 c["prelude_first"] = json!(prelude_first);
